@@ -1011,10 +1011,12 @@ impl<'a> Lexer<'a> {
                 Some('\\') if !raw => {
                     quote_count = 0;
                     // Handle escape sequences
+                    // `it` is just past the (one byte) backslash.
+                    let escape_start = it.pos() - 1;
                     if Self::escape(&mut it, &mut text).is_err() {
                         return Some(self.err_span(
                             LexemeError::InvalidEscapeSequence("\\".to_owned()),
-                            start + it.pos() - 1,
+                            start + escape_start,
                             start + it.pos(),
                         ));
                     }
